@@ -53,17 +53,20 @@ class Variables:
             self._unset(name)
 
     def _set(self, name: str, value: str) -> None:
-        self._variables[name] = value
+        # variable names are case-insensitive
+        self._variables[name.upper()] = value
 
     def _unset(self, name: str) -> None:
-        self._variables.pop(name)
+        self._variables.pop(name.upper())
 
     def inline_variables(self, sql: str) -> str:
-        for name, value in self._variables.items():
-            sql = re.sub(rf"\${name}", value, sql, flags=re.IGNORECASE)
+        # substitute every reference in a single pass, looking up the whole name, so that a variable is never
+        # replaced by another variable whose name is a prefix of it, and values are inserted verbatim
+        def inline(match: re.Match) -> str:
+            if (value := self._variables.get(match.group(1).upper())) is None:
+                raise snowflake.connector.errors.ProgrammingError(
+                    msg=f"Session variable '{match.group().upper()}' does not exist"
+                )
+            return value
 
-        if remaining_variables := re.search(r"(?<!\$)\$\w+", sql):
-            raise snowflake.connector.errors.ProgrammingError(
-                msg=f"Session variable '{remaining_variables.group().upper()}' does not exist"
-            )
-        return sql
+        return re.sub(r"(?<!\$)\$(\w+)", inline, sql)
